@@ -180,7 +180,8 @@ def asmbench_unit(res):
     blank or not (blank(j)), a non-blank line has a form name with a sequence of operand codes and a number as its second word
     (A: str.strip / split / float act on such lines as the ghost classes say).  Block k = lines 4k .. 4k+3 (shorter at the end of the
     file).  Obligations per block: the import stops - without storing anything for this block - iff the block is all blank, or has
-    fewer than 3 lines, or has a 4th line that is not blank; otherwise exactly one entry is stored under the stripped first line,
+    fewer than 3 lines, or has a 4th line that is not blank, or its 2nd / 3rd line is not a latency / throughput measurement line;
+    otherwise exactly one entry is stored under the stripped first line,
     with the mnemonic and the decoded operand codes of that line, throughput = validated number of line 4k+2, latency = validated
     number of line 4k+1, no port pressure.  Earlier entries are never touched (the store only adds / replaces by key)."""
     ex = Engine([REPO + "/" + DBI])
@@ -273,12 +274,23 @@ def asmbench_unit(res):
     ex.abstract["_validate_measurement"] = validate
     ex.abstract["_create_db_operand"] = lambda ex_, so, a, kw: ("decoded", a[0], a[1])
     ex.names["InstructionForm"] = lambda ex_, *a, **kw: Entry(kw) if not a else (_ for _ in ()).throw(Unsupported("positional InstructionForm arguments"))
+    # ghost structure of a line: it is a measurement line 'Latency: <number> ..' / 'Throughput: <number> ..' or not
+    # (the helper that decides this has its own unit, measurement_line_unit)
+    is_lat, is_tp = z3.Function("is_latency_line", I_, B_), z3.Function("is_throughput_line", I_, B_)
+
+    def is_measurement(ex_, so, a, kw):
+        line, label = a
+        if not isinstance(line, Line) or label not in ("Latency", "Throughput"):
+            raise Unsupported("measurement test on something else than a line of the file")
+        return SBool((is_lat if label == "Latency" else is_tp)(line.j))
+
+    ex.abstract["_is_asmbench_measurement"] = is_measurement
 
     def malformed(k):
-        # block k: lines 4k .. min(4k+4, N) - 1
+        # block k: lines 4k .. min(4k+4, N) - 1; statement: a malformed block stops the import at that block
         ln = z3.If(4 * k + 4 <= N, 4, N - 4 * k)
         allblank = z3.And([z3.Implies(4 * k + d < N, blank(4 * k + d)) for d in range(4)])
-        bad = z3.Or(ln < 3, z3.And(ln == 4, z3.Not(blank(4 * k + 3))))
+        bad = z3.Or(ln < 3, z3.And(ln == 4, z3.Not(blank(4 * k + 3))), z3.Not(is_lat(4 * k + 1)), z3.Not(is_tp(4 * k + 2)))
         return allblank, bad
 
     class Hook:
@@ -333,6 +345,53 @@ def asmbench_unit(res):
         q = z3.Int("q")
         paths = ex.explore(run, [N >= 0, z3.ForAll([q], ncodes(q) >= 1)])
         res.add_paths(paths, lambda v, p: isinstance(v, Entries) or isinstance(v, dict), kind=f"{isa}/returns-the-store")
+    return res
+
+
+def measurement_line_unit(res):
+    """P: _is_asmbench_measurement (real code) on a line given as ghost word structure (number of words, whether the first word
+    starts with the label, whether the second word is a number: A for str.split / startswith / float): True iff the line has at
+    least two words, the first starts with the label and the second is a number; never an exception (in particular no IndexError
+    for a blank line and no ValueError for 'n/a')."""
+    ex = Engine([REPO + "/" + DBI])
+    nwords = z3.Int("n_words")
+    starts, isnum = z3.Bool("first_word_starts_with_label"), z3.Bool("second_word_is_a_number")
+
+    class Word:
+        def __init__(self, i):
+            self.i = i
+
+        def sym_method(self, ex_, name, args, kw):
+            if name == "startswith" and self.i == 0 and args == ["Latency"]:
+                return SBool(starts)
+            raise Unsupported("word." + name)
+
+        def sym_float(self, ex_):
+            if self.i != 1:
+                raise Unsupported("float of another word")
+            if ex_.branch(isnum):
+                return SNum(z3.Real("the_number"), False)
+            raise PyRaise("ValueError", "could not convert string to float")
+
+    class WordList:
+        def sym_len(self, ex_):
+            return SNum(nwords, True)
+
+        def sym_getitem(self, ex_, i):
+            if not isinstance(i, int) or i < 0:
+                raise Unsupported("word index")
+            if ex_.branch(nwords <= i):
+                raise PyRaise("IndexError", "list index out of range")
+            return Word(i)
+
+    class TheLine:
+        def sym_method(self, ex_, name, args, kw):
+            if name == "split" and not args:
+                return WordList()
+            raise Unsupported("line." + name)
+
+    paths = ex.explore(lambda: ex.call_function("_is_asmbench_measurement", [TheLine(), "Latency"]), [nwords >= 0])
+    res.add_paths(paths, lambda v, p: z3.BoolVal(v is True) == z3.And(nwords >= 2, starts, isnum) if isinstance(v, bool) else False, kind="_is_asmbench_measurement")
     return res
 
 
@@ -664,6 +723,7 @@ def units(tier):
              [(DBI, "_create_db_operand_aarch64"), (DBI, "_create_db_operand")]),
         Unit("C20/_get_ibench_output(TP/LT merged per form, any file length)", ibench_unit, "P", [(DBI, "_get_ibench_output")]),
         Unit("C20/_get_asmbench_output(block structure, any file length)", asmbench_unit, "P", [(DBI, "_get_asmbench_output")]),
+        Unit("C20/_is_asmbench_measurement", measurement_line_unit, "P", [(DBI, "_is_asmbench_measurement")]),
         Unit("C20/insertion(set_instruction_entry, set_instruction, import loop)", insertion_unit, "P", [("osaca/semantics/hw_model.py", "MachineModel.set_instruction_entry"),
              ("osaca/semantics/hw_model.py", "MachineModel.set_instruction"), (DBI, "import_benchmark_output")]),
         bounded_unit("C20/import-end-to-end", "c20_import", [(DBI, "_get_ibench_output"), (DBI, "_get_asmbench_output"),
